@@ -1,9 +1,16 @@
 import TonicModel.Model.Reconnect
 import TonicModel.Spec.Reconnect
+import TonicModel.Spec.Balance
 import TonicModel.Lemmas.Reconnect
 import TonicModel.Lemmas.ReconnectErr
 import TonicModel.Lemmas.ReconnectStack
 import TonicModel.Lemmas.ReconnectNet
+import TonicModel.Lemmas.Balance
+import TonicModel.Lemmas.BalanceRun
+import TonicModel.Lemmas.BalanceDebt
+import TonicModel.Lemmas.BalanceWitness
+import TonicModel.Lemmas.BalanceSpecMain
+import TonicModel.Lemmas.BalanceAcct
 /-
 C14 — A channel always answers and recovers when the peer comes back.
 Property theorems only; helper lemmas live in `Lemmas/Reconnect.lean`.
@@ -425,6 +432,222 @@ theorem C14_e2e_spec_unfixed_fails :
   revert this
   decide
 
+/-! ## load-balanced channels (`Channel::balance_list`, `Channel::balance_channel`)
+
+`Balance.call` is one request through the buffer worker and tower's p2c `Balance` over the
+channel's endpoints, each endpoint being the lazy `Reconnect` of the sections above
+(`Connection::lazy`, as `discover.rs` builds it) with its own loopback network (`Balance.EW`);
+`Balance.Choice` is what the balancer's coin flips decide during that call; every theorem is for
+EVERY choice.  `Balance.run` / `Balance.exec` run a whole script of calls, servers starting and
+stopping, `Change::Insert` / `Change::Remove` (`BalScript.BOp`). -/
+
+/-- Every call on a balanced channel that has at least one endpoint completes with a result of
+its own — a response, the UNAVAILABLE-class failure of one connection attempt, or (the call went
+out on a connection whose peer was already gone) an error of that connection — never a hang and
+never a panic: for every script of servers starting and stopping and endpoints inserted and
+removed, and for every sequence of choices of the balancer. -/
+theorem C14_balanced_call_definite (ops : List BalScript.BOp) (chs : List Balance.Choice) :
+    ∀ p ∈ Balance.run (Balance.B.init true) ops chs,
+      (0 < p.1 → (∃ k g, p.2 = .resp k g) ∨ (∃ k x, p.2 = .err k x) ∨ (∃ k, p.2 = .lost k)) ∧
+      (∀ code, p.2.obs = .error code → code = unavailable) := by
+  intro p hp
+  constructor
+  · intro hm
+    have := Balance.run_definite ops (Balance.B.init true) chs rfl (by intro e he; cases he) p hp hm
+    cases h : p.2 with
+    | resp k g => exact Or.inl ⟨k, g, rfl⟩
+    | err k x => exact Or.inr (Or.inl ⟨k, x, rfl⟩)
+    | lost k => exact Or.inr (Or.inr ⟨k, rfl⟩)
+    | hang => rw [h] at this; cases this
+    | panic => rw [h] at this; cases this
+  · intro code hc
+    cases h : p.2 <;> rw [h] at hc <;> simp [Balance.BRes.obs] at hc
+    rw [← hc]; exact Net.refusedCode_eq
+
+/-- The one case in which a call on a balanced channel waits: the channel has NO endpoint (none
+inserted yet, or all removed). `Balance::poll_ready` is then `Pending` until discovery delivers
+one. (The property's "every call completes" is about channels that have an endpoint; see
+`C14_balanced_call_definite`.) -/
+theorem C14_balanced_no_endpoint_waits (s : Balance.B) (ch : Balance.Choice)
+    (h : Balance.members s.eps = 0) : (Balance.call s ch).2 = .hang :=
+  Balance.call_no_member s ch h
+
+/-- "No fault script removes an endpoint from the set: only an explicit `Change::Remove` does."
+In every state any script can lead to, a call (whatever the balancer chooses, whatever fails
+during it) and a server starting or stopping leave the set of endpoints in the channel exactly
+as it was; `Change::Insert(k)` / `Change::Remove(k)` put `k` in / take it out. -/
+theorem C14_balanced_no_endpoint_lost (ops : List BalScript.BOp) (chs : List Balance.Choice)
+    (ch : Balance.Choice) (k : Nat) :
+    let s := Balance.exec (Balance.B.init true) ops chs
+    Balance.memberKeys (Balance.call s ch).1.eps = Balance.memberKeys s.eps ∧
+    Balance.memberKeys (Balance.env s (.up k)).eps = Balance.memberKeys s.eps ∧
+    Balance.memberKeys (Balance.env s (.down k)).eps = Balance.memberKeys s.eps ∧
+    k ∈ Balance.memberKeys (Balance.env s (.insert k)).eps ∧
+    k ∉ Balance.memberKeys (Balance.env s (.remove k)).eps := by
+  intro s
+  have hl := (Balance.exec_lz ops (Balance.B.init true) chs rfl (by intro e he; cases he)).2
+  exact ⟨Balance.call_memberKeys s ch hl, Balance.env_up_memberKeys s k, Balance.env_down_memberKeys s k,
+    Balance.env_insert_memberKeys s k, Balance.env_remove_memberKeys s k⟩
+
+/-- Recovery, with the exact bound. Take any state a script can lead to in which every endpoint
+of the channel is reachable (its server listens), and let nothing but calls happen from then on.
+Each endpoint holds at most one failure no call has been told about yet (a parked connect error,
+a refused attempt still in flight, an attempt accepted by a server that has gone since);
+`Balance.debt` counts them. Then, whatever the balancer chooses: every further call completes,
+and the calls that end in an error instead of a response are at most `debt` many — in total, not
+just in a row — and `debt` is at most the number of endpoints. So a call succeeds after at most
+`debt ≤ n` further calls, and from then on every call does once the debt is used up. -/
+theorem C14_balanced_recovers (ops : List BalScript.BOp) (chs more : List Balance.Choice) :
+    let s := Balance.exec (Balance.B.init true) ops chs
+    (∀ e ∈ s.eps, e.member = true → e.w.up = true) → 0 < Balance.members s.eps →
+      (∀ r ∈ Balance.calls s more, r.definite = true) ∧
+      ((Balance.calls s more).filter Balance.BRes.errored).length ≤ Balance.debt s.eps ∧
+      Balance.debt s.eps ≤ Balance.members s.eps := by
+  intro s hup hm
+  have hl := (Balance.exec_lz ops (Balance.B.init true) chs rfl (by intro e he; cases he)).2
+  have hg := Balance.exec_gd ops (Balance.B.init true) chs (by intro e he; cases he)
+  exact ⟨Balance.calls_definite more s hl hm,
+    Balance.calls_debt more s (fun e he => ⟨hup e he, hg e he⟩), Balance.debt_le_members s.eps⟩
+
+/-- The bound is `n - 1` at any moment after a call that was served: the endpoint that served the
+last call holds no failure. For a channel over ONE endpoint that is the property as stated: once
+the endpoint is reachable again, the next call succeeds. -/
+theorem C14_balanced_recovers_bound (ops : List BalScript.BOp) (chs : List Balance.Choice)
+    (ch : Balance.Choice) :
+    let s := Balance.exec (Balance.B.init true) ops chs
+    (Balance.call s ch).2 ≠ .hang →
+      Balance.debt (Balance.call s ch).1.eps + 1 ≤ Balance.members (Balance.call s ch).1.eps := by
+  intro s h
+  exact Balance.call_slack s ch (Balance.exec_gd ops (Balance.B.init true) chs (by intro e he; cases he)) h
+
+/-- The script's own steps do not add to what an endpoint holds unless its server is stopped:
+a server that starts leaves the debt as it is. (Together with `C14_balanced_recovers_bound`: one
+endpoint, server back up, next call served.) -/
+theorem C14_balanced_single_endpoint_recovers (ops : List BalScript.BOp) (chs : List Balance.Choice)
+    (ch ch' : Balance.Choice) (k : Nat) :
+    let s := Balance.exec (Balance.B.init true) ops chs
+    let s' := Balance.env (Balance.call s ch).1 (.up k)
+    (Balance.call s ch).2 ≠ .hang → Balance.members s.eps = 1 →
+    (∀ e ∈ s'.eps, e.member = true → e.w.up = true) →
+      ∃ k' g, (Balance.call s' ch').2 = .resp k' g := by
+  intro s s' hh hone hup
+  have hlz := (Balance.exec_lz ops (Balance.B.init true) chs rfl (by intro e he; cases he)).1
+  have hl := (Balance.exec_lz ops (Balance.B.init true) chs rfl (by intro e he; cases he)).2
+  have hg := Balance.exec_gd ops (Balance.B.init true) chs (by intro e he; cases he)
+  have hl1 := Balance.call_lz s ch hl
+  have hg1 := Balance.pw_gd (Balance.call_pw s ch) hg
+  have hm1 : Balance.members (Balance.call s ch).1.eps = 1 := by
+    rw [Balance.pw_members (Balance.call_pw s ch) hl]; exact hone
+  have hd1 : Balance.debt (Balance.call s ch).1.eps = 0 := by
+    have := Balance.call_slack s ch hg hh
+    omega
+  have hl' : ∀ e ∈ s'.eps, Balance.Lz e :=
+    Balance.env_lz _ _ (by rw [Balance.call_lazyEps]; exact hlz) hl1
+  have hg' : ∀ e ∈ s'.eps, Balance.Gd e := Balance.env_gd _ _ hg1
+  have hm' : Balance.members s'.eps = 1 := by
+    rw [Balance.members_table, ← List.length_map (f := fun p : Nat × Bool => p.1)]
+    have := Balance.env_up_memberKeys (Balance.call s ch).1 k
+    rw [Balance.memberKeys_table, Balance.memberKeys_table] at this
+    rw [this, List.length_map, ← Balance.members_table]; exact hm1
+  have hd' : Balance.debt s'.eps = 0 := by
+    have := Balance.env_up_debt (Balance.call s ch).1 k
+    show Balance.debt (Balance.env (Balance.call s ch).1 (.up k)).eps = 0
+    omega
+  have hdef := Balance.call_definite s' ch' hl' (by omega)
+  have hdebt := (Balance.call_debt s' ch' (fun e he => ⟨hup e he, hg' e he⟩)).1
+  cases h : (Balance.call s' ch').2 with
+  | resp k' g => exact ⟨k', g, rfl⟩
+  | err k x => rw [h] at hdebt; simp [Balance.BRes.errored] at hdebt; omega
+  | lost k => rw [h] at hdebt; simp [Balance.BRes.errored] at hdebt; omega
+  | hang => rw [h] at hdef; cases hdef
+  | panic => rw [h] at hdef; cases hdef
+
+/-- Recovery, per endpoint — what "once the endpoint is reachable again the next call succeeds"
+comes to on a balanced channel when only SOME endpoint is reachable. Take any state a script can
+lead to in which endpoint `k`'s server listens, and let nothing but calls happen. Whatever the
+other endpoints do (down for good, or not) and whatever the balancer draws: at most ONE further
+call gets an error that came from `k` (the stale failure `k` may still hold from the time it was
+down); every other call the balancer gives to `k` is served. So a call succeeds as soon as the
+balancer draws `k` for the second time — how soon that is, is the balancer's coin
+(`C14_balanced_recovers_one_reachable_fails`). -/
+theorem C14_balanced_endpoint_recovers (ops : List BalScript.BOp) (chs more : List Balance.Choice) (k : Nat) :
+    let s := Balance.exec (Balance.B.init true) ops chs
+    (∀ e ∈ s.eps, e.key = k → e.member = true → e.w.up = true) →
+      ((Balance.calls s more).filter (Balance.BRes.errorOf k)).length ≤ 1 := by
+  intro s hup
+  have hg := Balance.exec_gd ops (Balance.B.init true) chs (by intro e he; cases he)
+  have hn := Balance.exec_keys_nodup ops (Balance.B.init true) chs (by simp [Balance.B.init])
+  exact Nat.le_trans (Balance.calls_errors_of k more s (fun e he => ⟨hup e he, hg e he⟩))
+    (Balance.potK_total_le_one k s.eps hn)
+
+/-- What does NOT hold, and why the bound above asks for every endpoint to be reachable: with only
+SOME endpoint reachable there is no number of calls after which one must succeed. Three endpoints,
+endpoint 0 up and connected, 1 and 2 down: each dead endpoint is back in the ready set — holding
+the parked failure of its latest attempt, which the call that draws it gets — every other call, so
+a balancer that keeps drawing 1 and 2 in turn fails every call for ever (`Balance.starved_step`:
+two calls later the channel is where it was). tower's p2c draws at random among the ready
+endpoints (`Connection::load` is constant), so in the real channel this run has probability 0 —
+but every finite prefix of it has positive probability: the guarantee is per endpoint and per
+choice, not a bound on calls. -/
+theorem C14_balanced_recovers_one_reachable_fails :
+    ¬ ∃ K : Nat, ∀ (ops : List BalScript.BOp) (chs more : List Balance.Choice), more.length = K + 1 →
+        (∃ e ∈ (Balance.exec (Balance.B.init true) ops chs).eps, e.member = true ∧ e.w.up = true) →
+        ∃ r ∈ Balance.calls (Balance.exec (Balance.B.init true) ops chs) more, r.errored = false := by
+  rintro ⟨K, h⟩
+  obtain ⟨r, hr, he⟩ := h Balance.starveOps Balance.starveChs ((Balance.alt (K + 1)).take (K + 1))
+    (by rw [List.length_take, Balance.alt_length]; omega)
+    (by rw [Balance.starved_reachable]; exact ⟨_, List.mem_cons_self, rfl, rfl⟩)
+  rw [Balance.starved_reachable, Balance.calls_take] at hr
+  have := Balance.starved_forever (K + 1) 2 r (List.mem_of_mem_take hr)
+  rw [this] at he
+  cases he
+
+/-- The counter-model (seed C14e): were the endpoint connections of a balanced channel NOT lazy
+(`Reconnect::new(.., is_lazy = false)`, `Balance.B.init false`), a failing first attempt would
+come out of `poll_ready` as an error, tower's `Balance` would drop the endpoint, and nothing would
+re-insert it: one endpoint, nothing listening — the first call hangs and the endpoint is gone
+although no `Change::Remove` was sent (`C14_balanced_no_endpoint_lost` fails), and the call after
+the server has started hangs as well (`C14_balanced_call_definite` and recovery fail), whatever
+the balancer chooses. Witness in the harness corpus: `bal list 0 bccu0cc`. -/
+theorem C14_balanced_no_endpoint_lost_eager_fails (ch ch' : Balance.Choice) :
+    let s := Balance.env (Balance.B.init false) (.insert 0)
+    Balance.memberKeys s.eps = [0] ∧
+    (Balance.call s ch).2 = .hang ∧
+    Balance.memberKeys (Balance.call s ch).1.eps = [] ∧
+    (Balance.call (Balance.env (Balance.call s ch).1 (.up 0)) ch').2 = .hang := by
+  intro s
+  obtain ⟨h1, h2⟩ := Balance.eager_first_call ch
+  refine ⟨by decide, h1, h2, ?_⟩
+  apply Balance.call_no_member
+  have := Balance.env_up_memberKeys (Balance.call s ch).1 0
+  rw [h2] at this
+  simpa [Balance.members, Balance.memberKeys] using this
+
+/-- The model against the oracle, for balanced channels: for EVERY script of calls, servers
+starting and stopping, `Change::Insert` / `Change::Remove`, and for EVERY sequence of choices of
+the balancer, what the model lets the callers observe satisfies every clause of
+`Spec.Balance.clauses` — each call gets a result of its own (a hang only on a channel with no
+endpoint), an error is UNAVAILABLE-class and is given only while some endpoint of the channel
+owes a failure (it was unreachable at the time of a call, or its server was stopped, and it has
+neither answered nor been the only one owing when an error was handed out since — so a failure is
+not replayed), a response comes from a listening endpoint of the channel and from its current
+server generation, an error that is not a connect error only after a server of the channel was
+stopped, and with every endpoint reachable and none owing the call succeeds. (The oracle is
+evaluated on what the real channel did, case by case, by `./check C14`.) -/
+theorem C14_balanced_spec (ops : List BalScript.BOp) (chs : List Balance.Choice) :
+    Spec.Balance.holds ops ((Balance.run (Balance.B.init true) ops chs).map fun p => p.2.obs) = true :=
+  Balance.run_spec_init ops chs
+
+/-- … and the counter-model with non-lazy endpoint connections (seed C14e) does not: the oracle
+rejects its run on the one-endpoint witness (`definite-result`). -/
+theorem C14_balanced_spec_eager_fails :
+    ¬ (∀ (ops : List BalScript.BOp) (chs : List Balance.Choice),
+        Spec.Balance.holds ops ((Balance.run (Balance.B.init false) ops chs).map fun p => p.2.obs) = true) := by
+  intro h
+  have := h [.insert 0, .call, .up 0, .call] []
+  revert this
+  decide
+
 /-! ## non-vacuity -/
 
 -- hypotheses of `C14_recovers` are satisfiable from every state in use, with Pendings interleaved
@@ -502,5 +725,35 @@ example : E2E.run true true [.refuse, .accept] [.pair] =
 -- the oracle rejects both callers being handed the same failure
 example : Spec.Reconnect.holds true [.refuse, .accept] [.pair]
     { build := .ok, buildAttempts := 0, evs := [.pair (.error 14 (some 1)) (.error 14 (some 1)) 1] } = false := by decide
+
+-- balanced channel, one endpoint: an error per call while nothing listens, served at the first call after
+example : (Balance.run (Balance.B.init true) [.insert 0, .call, .call, .up 0, .call, .call] [default, default, default, default]).map (·.2)
+    = [.err 0 1, .err 0 2, .resp 0 1, .resp 0 1] := by decide
+-- two endpoints, one up: the dead one's parked failure goes to the call that draws it, once; it is retried
+example : (Balance.run (Balance.B.init true) [.up 0, .insert 0, .insert 1, .call, .call, .call, .call]
+      [⟨[1], 1⟩, ⟨[1], 1⟩, ⟨[1], 1⟩, ⟨[1], 1⟩]).map (·.2)
+    = [.err 1 1, .resp 0 1, .err 1 2, .resp 0 1] := by decide
+-- a stale failure: endpoint 1 was down when last tried, is up now, and is the only one left
+example : (Balance.run (Balance.B.init true)
+      [.up 0, .insert 0, .insert 1, .call, .call, .up 1, .remove 0, .call, .call]
+      [⟨[0], 0⟩, ⟨[0], 0⟩, default, default]).map (·.2)
+    = [.resp 0 1, .resp 0 1, .err 1 1, .resp 1 1] := by decide
+-- an attempt accepted by a server that is gone before the connection is first used
+example : (Balance.run (Balance.B.init true)
+      [.up 0, .up 1, .insert 0, .call, .insert 1, .call, .down 1, .call]
+      [default, ⟨[0], 0⟩, ⟨[1], 1⟩]).map (·.2)
+    = [.resp 0 1, .resp 0 1, .lost 1] := by decide
+-- the hypotheses of `C14_balanced_recovers` are satisfiable with a debt to pay: two endpoints, both down
+-- for two calls, then both up: one stale failure (debt 1 = n - 1), then responses
+example :
+    let s := Balance.exec (Balance.B.init true) [.insert 0, .insert 1, .call, .call, .up 0, .up 1] [default, default]
+    (∀ e ∈ s.eps, e.member = true → e.w.up = true) ∧ Balance.members s.eps = 2 ∧ Balance.debt s.eps = 1 ∧
+    Balance.calls s [default, default, default, default] = [.err 0 2, .resp 1 1, .resp 0 1, .resp 0 1] := by decide
+-- the oracle accepts what the model shows and rejects a hang, a replayed failure, a wrong class
+example : Spec.Balance.holds [.insert 0, .call, .up 0, .call] [.error 14, .resp 0 1] = true := by decide
+example : Spec.Balance.holds [.insert 0, .call] [.hang] = false := by decide
+example : Spec.Balance.holds [.insert 0, .call, .up 0, .call] [.error 14, .error 14] = false := by decide
+example : Spec.Balance.holds [.insert 0, .call] [.error 2] = false := by decide
+example : Spec.Balance.holds [.call] [.hang] = true := by decide
 
 end C14
